@@ -43,8 +43,31 @@
 (*              reports ERROR at the initial exchange, or QUITTING with no *)
 (*              bytes in the middle of the TLS rounds or at a completion   *)
 (*              check, and ends.                                           *)
-(* Known-wrong designs are members of Bug (self-tests only); today's       *)
-(* cedar server role is "ServerNeverHolding".                              *)
+(* Known-wrong designs are members of Bug (non-vacuity self-tests, and to   *)
+(* recognise a known deviation of the real code as exactly that):          *)
+(*   ServerNeverHolding  TODAY's cedar server role: at the completion      *)
+(*                       check it sends the status the shim left behind    *)
+(*                       (RECEIVING), as a bare integer, never HOLDING     *)
+(*   SilentInitFailure   TODAY: a role whose credentials cannot be read    *)
+(*                       returns before the initial status exchange        *)
+(*   IgnorePeerQuitting  TODAY: the shim's Read never looks at the peer's  *)
+(*                       status                                            *)
+(*   StatusOnlyConfirm   the server says HOLDING, but without the length   *)
+(*   SkipCertCheck       the client accepts any certificate                *)
+(*   NoAlert             the client ends on a bad certificate silently     *)
+(*   ClientAlwaysWaits   the client waits for a status message even when   *)
+(*                       the server's last record already said HOLDING     *)
+(*   ServerKeyDiffers    the server keeps another key than the one it sent *)
+(*                                                                         *)
+(* Invariants (end of the module): an honest pair with a valid chain never *)
+(* fails and cannot stop early (HonestNeverFails, Progress), both reach    *)
+(* HOLDING and hold the same key (Agreement), the client completes only if *)
+(* it authenticated the certificate against its CA and server name         *)
+(* (ServerAuthenticated), a certificate that does not verify makes both    *)
+(* fail (BadCertFailsBoth, OneFailsBothFail), nobody waits for a message   *)
+(* that will never come, whatever the peer reports (NoStuck,               *)
+(* ErrorPropagates), nothing is left unread (NoStray), every message after *)
+(* the initial exchange is status + length + bytes (RecordShape).          *)
 (***************************************************************************)
 EXTENDS Integers, Sequences, FiniteSets, TLC
 
@@ -71,14 +94,18 @@ Class(st) == IF st \in {SENDING, RECEIVING} THEN "PROG" ELSE st
 
 SrvCerts == {"good", "wrongca", "wrongname", "expired", "notyet", "none"}
 Trusts   == {"ca", "other", "none"}       \* the client's trust anchors
-Names    == {"match", "mismatch"}         \* the name the client expects vs the certificate's
+Names    == {"host", "otherhost", "address"}  \* the server name the client expects (address: it has no name, only an IP)
 CliCerts == {"none", "client", "clientbad"}
 Brokens  == {"none", "c", "s"}            \* whose credential files cannot be read
+\* scripted faults of an htcondor-style role: <role>_err_init reports ERROR at the
+\* initial exchange; <role>_quit_mid sends QUITTING and no bytes in place of its
+\* second flight; c_quit_conf reports QUITTING at the first completion check,
+\* s_quit_conf sends its last flight with QUITTING
 AllFaults == {"none", "c_err_init", "s_err_init", "c_quit_mid", "s_quit_mid", "c_quit_conf", "s_quit_conf"}
 
-\* the dimensions are explored one at a time around the honest configuration
-\* (every value of every dimension, plus all pairs of the certificate dimensions)
-Honest == [srvCert |-> "good", trust |-> "ca", name |-> "match", cliCert |-> "none", broken |-> "none"]
+\* every combination of certificate class, trust anchors and expected name; the
+\* other dimensions one at a time around the honest configuration
+Honest == [srvCert |-> "good", trust |-> "ca", name |-> "host", cliCert |-> "none", broken |-> "none"]
 CertConfigs ==
   { [Honest EXCEPT !.srvCert = sc, !.trust = t, !.name = n] : sc \in SrvCerts, t \in Trusts, n \in Names }
   \cup { [Honest EXCEPT !.cliCert = cc] : cc \in CliCerts }
@@ -99,8 +126,15 @@ Configs ==
                      sp \in StylePairs, f \in Faults \ {"none"} } :
              (FaultRole(x.fault) = "c" /\ x.cstyle = "htcondor") \/ (FaultRole(x.fault) = "s" /\ x.sstyle = "htcondor") }
 
+\* the certificate classes: who signed it, whom it names, whether it is valid now
+Issuer(sc)  == IF sc = "wrongca" THEN "other" ELSE "ca"
+Subject(sc) == IF sc = "wrongname" THEN "otherhost" ELSE "host"
+InTime(sc)  == sc \notin {"expired", "notyet"}
 \* the server's certificate chain verifies against the client's CA and server name
-CertValid(c) == c.base.srvCert = "good" /\ c.base.trust = "ca" /\ c.base.name = "match"
+\* (so a certificate of the "other" CA is fine for a client that trusts that CA, etc.)
+CertValid(c) == /\ c.base.srvCert # "none" /\ InTime(c.base.srvCert)
+                /\ Issuer(c.base.srvCert) = c.base.trust
+                /\ Subject(c.base.srvCert) = c.base.name
 
 -----------------------------------------------------------------------------
 VARIABLES
@@ -134,15 +168,22 @@ InitStatusOf(c, r) == IF c.base.broken = r \/ (c.fault # "none" /\ FaultRole(c.f
                       THEN ERROR ELSE OK
 SilentOf(c, r) == c.base.broken = r /\ (IF r = "c" THEN c.cstyle ELSE c.sstyle) = "cedar" /\ "SilentInitFailure" \in Bug
 
+InitPc(c)  == [r \in Roles |-> IF r = "c" /\ ~SilentOf(c, "c") THEN "rxInit" ELSE "init"]
+InitOwn(c) == [r \in Roles |-> IF r = "c" THEN InitStatusOf(c, "c") ELSE OK]
+InitView   == [r \in Roles |-> OK]
+InitInbox  == [r \in Roles |-> << >>]
+InitKey    == [r \in Roles |-> "none"]
+InitHist   == [intAfterInit |-> FALSE, sawBad |-> {}, aborted |-> {}, cfinSent |-> FALSE]
+
 Init ==
   /\ cfg \in Configs
   \* the client's first step is a read (no action of its own for the initialisation)
-  /\ pc = [r \in Roles |-> IF r = "c" /\ ~SilentOf(cfg, "c") THEN "rxInit" ELSE "init"]
-  /\ own = [r \in Roles |-> IF r = "c" THEN InitStatusOf(cfg, "c") ELSE OK]
-  /\ view = [r \in Roles |-> OK]
-  /\ inbox = [r \in Roles |-> << >>]
-  /\ key = [r \in Roles |-> "none"]
-  /\ hist = [intAfterInit |-> FALSE, sawBad |-> {}, aborted |-> {}, cfinSent |-> FALSE]
+  /\ pc = InitPc(cfg)
+  /\ own = InitOwn(cfg)
+  /\ view = InitView
+  /\ inbox = InitInbox
+  /\ key = InitKey
+  /\ hist = InitHist
 
 Send(r, m) == inbox' = [inbox EXCEPT ![Peer(r)] = Append(@, m)]
 
@@ -437,6 +478,28 @@ SNext ==
   \/ SKey
 
 Next == CNext \/ SNext
+
+\* the message event of a step: every action sends one message, receives one, or
+\* is local to one role (it gives up silently / it is cut loose by the peer's end)
+DataClass(d) == IF d \in {"hello", "shello", "cfin", "sfin"} THEN "flight" ELSE IF d = "key" THEN "app" ELSE d
+Proj(m) == [shape |-> m.shape, st |-> Class(m.st), data |-> DataClass(m.data),
+            est |-> m.st, edata |-> m.data]    \* (the exact status / content, for scripted peers)
+StepEvent ==
+  IF \E r \in Roles : Len(inbox'[r]) > Len(inbox[r])
+  THEN LET r == CHOOSE x \in Roles : Len(inbox'[x]) > Len(inbox[x])
+       IN [ev |-> "send", role |-> Peer(r), msg |-> Proj(inbox'[r][Len(inbox'[r])])]
+  ELSE IF \E r \in Roles : Len(inbox'[r]) < Len(inbox[r])
+  THEN LET r == CHOOSE x \in Roles : Len(inbox'[x]) < Len(inbox[x])
+       IN [ev |-> "recv", role |-> r, msg |-> Proj(Head(inbox[r]))]
+  ELSE LET r == CHOOSE x \in Roles : pc'[x] # pc[x]
+       IN [ev |-> "local", role |-> r,
+           msg |-> [shape |-> IF r \in hist'.aborted THEN "abort" ELSE "giveup", st |-> "-", data |-> "-",
+                    est |-> "-", edata |-> "-"]]
+
+\* how a role has ended, as an observer of the real code can tell
+Outcome(r) == IF pc[r] = "done" THEN "done"
+              ELSE IF pc[r] = "failed" THEN (IF r \in hist.aborted THEN "aborted" ELSE "failed")
+              ELSE "hang"
 
 Spec == Init /\ [][Next]_vars
 
